@@ -23,6 +23,9 @@ CHECKS = {
  'C07': dict(cat='model_checking', tech='add-only symbolic histories on the real code; oracle = Parikh-image feasibility of the content model in linear integer arithmetic (z3)',
              text='After every accepted addition the multiset of held children must be contained in some word of the content model, decided by z3 over the Parikh formula (unbounded word length); candidates are confirmed on the real code by to_string and a bounded completion search.',
              note=F1NOTE, ref='3 C07'),
+ 'C08': dict(cat='model_checking', tech='documents generated from the reference model (z3 models of lexical spaces and solver-checked child words) round-tripped through the real API, writer and parser',
+             text='Per element class the minimal valid document, child words, every representative value of the content type and every declared attribute with representative values are built through the API, written, parsed back and re-serialised twice; infoset equality up to decimal spelling, byte-identical second trip, integer types preserved.',
+             note='bounded: one attribute at a time, words <= 3/4, minimal children; values are solver-chosen representatives (bounds, interior, literals, pattern models, whitespace/markup strings), not all values', ref='3 C08'),
  'C10': dict(cat='model_checking', tech='symbolic histories on the real code; every raising call compared with the pre-state and with a twin history without the failed calls (snapshot + acceptance vector)',
              text='Bounded exploration of histories in which calls fail; state before/after each failed call on the same object and end state versus a twin element that never saw the failed calls.',
              note=F1NOTE, ref='3 C10'),
@@ -32,6 +35,9 @@ CHECKS = {
  'C12': dict(cat='model_checking', tech='multisets with a unique arrangement (two z3 arrangement queries) fed in all permutations to the real add_child; Parikh LIA for still-compatible children',
              text='(a) For multisets whose schema-valid arrangement is unique (decided by z3), every distinguishable insertion order must be accepted and serialise in that arrangement with same-named children in insertion order; (b) a child whose addition keeps the multiset completable (Parikh formula) must not be rejected.',
              note=F1NOTE, ref='3 C12'),
+ 'C14': dict(cat='model_checking', tech='generated element trees (C08 generator) with one post-construction edit, deep-copied and compared; one further edit for independence',
+             text='Per element class: document variants x one post-construction edit (attribute set later / overwritten / removed, value changed, xsd_check off, child added / removed) -> deepcopy -> same serialisation, original unchanged, xsd_check kept, then independence under one more edit of either tree.',
+             note='finite enumeration of edits; shapes and values from the reference model via z3; bounded to single edits', ref='3 C14'),
  'C19': dict(cat='model_checking', tech='exception / output / time monitor over z3-driven symbolic histories on the real code with the widest operand ranges',
              text='Every exception escaping a public call in the explored histories is classified as documented or internal, stdout/stderr are captured per call and each path runs under a timer.',
              note=F1NOTE + '; TypeError/ValueError treated as documented everywhere', ref='3 C19'),
